@@ -13,7 +13,6 @@ import (
 	"context"
 	"fmt"
 	"os"
-	"os/exec"
 	"sort"
 	"strings"
 	"sync"
@@ -22,6 +21,7 @@ import (
 	"anndbverif/explore"
 	"anndbverif/idxlib"
 	"anndbverif/lib/ev"
+	"anndbverif/lib/racepass"
 	"anndbverif/vrt"
 	"anndbverif/world"
 
@@ -477,67 +477,7 @@ func main() {
 	for _, sc := range scenarios() {
 		scs = append(scs, build(sc))
 	}
-	before := func(run *ev.Run) ev.Coverage {
-		bin := os.Getenv("VERIF_C13_RACE")
-		if bin == "" {
-			return ev.Coverage{"race_pass": "not run"}
-		}
-		// bounded: if the free-running bodies hang (a deadlock the runtime cannot see) the pass is abandoned without a
-		// verdict - no wall-clock oracle - and the exploration below decides
-		ctx, cancel := context.WithTimeout(context.Background(), 3*time.Minute)
-		defer cancel()
-		cmd := exec.CommandContext(ctx, bin, "--race-pass")
-		cmd.Env = append(os.Environ(), "GORACE=halt_on_error=0")
-		out, err := cmd.CombinedOutput()
-		text := string(out)
-		if ctx.Err() != nil {
-			fmt.Println("race pass abandoned after 3 minutes (no verdict from it)")
-			return ev.Coverage{"race_pass": map[string]interface{}{"exhaustive": false, "note": "abandoned after 3 minutes without finishing; no verdict"}}
-		}
-		reports := strings.Count(text, "WARNING: DATA RACE")
-		if reports == 0 && (err != nil || !strings.Contains(text, "RACEPASS")) {
-			// the free-running bodies died: a panic or a runtime-detected deadlock inside the repository's code is a
-			// finding about the code (the exploration below looks for the same thing exhaustively); anything else is ours
-			frame := ""
-			if strings.Contains(text, "panic:") || strings.Contains(text, "fatal error:") {
-				for _, l := range strings.Split(text, "\n") {
-					l = strings.TrimSpace(l)
-					if strings.HasPrefix(l, "/repo/") && !strings.Contains(l, "verif_hooks") {
-						frame = strings.TrimPrefix(strings.Fields(l)[0], "/repo/")
-						break
-					}
-				}
-			}
-			if frame == "" {
-				ev.Tool("race pass failed: %v\n%s", err, tail(text, 2000))
-			}
-			run.Violation("free-running-pass-died:"+frame, "the free-running pass over the scenario bodies died:\n"+head(text, 1500), map[string]interface{}{"output": head(text, 3000)})
-			return ev.Coverage{"race_pass": "died at " + frame}
-		}
-		// one finding per distinct pair of access sites inside /repo
-		seen := map[string]bool{}
-		for _, blk := range strings.Split(text, "WARNING: DATA RACE")[1:] {
-			var sites []string
-			for _, l := range strings.Split(blk, "\n") {
-				l = strings.TrimSpace(l)
-				if strings.HasPrefix(l, "/repo/") && len(sites) < 2 {
-					if i := strings.Index(l, " "); i > 0 {
-						l = l[:i]
-					}
-					sites = append(sites, strings.TrimPrefix(l, "/repo/"))
-				}
-				if strings.HasPrefix(l, "Previous") && len(sites) == 1 {
-					sites = append(sites, "|")
-				}
-			}
-			key := "data-race:" + strings.Join(sites, "")
-			if !seen[key] {
-				seen[key] = true
-				run.Violation(key, "race detector report (free-running pass):\n"+tail(blk, 1500), map[string]interface{}{"race_report": tail(blk, 3000)})
-			}
-		}
-		return ev.Coverage{"race_pass": map[string]interface{}{"exhaustive": false, "reports": reports, "distinct": len(seen), "note": "sampling: free-running -race pass over the same scenario bodies"}}
-	}
+	before := func(run *ev.Run) ev.Coverage { return racepass.Run(run, os.Getenv("VERIF_C13_RACE")) }
 	explore.Main("C13", scs, explore.Plan{QuickBound: 3, ThoroughBound: 4, QuickBudget: 150 * time.Second, ThoroughBudget: 20 * time.Minute, Shards: 4, Before: before},
 		"model_checking", []string{
 			"scheduling points at every lock and every sync/atomic operation; sequential consistency in between (the separate -race pass covers unsynchronised accesses, by sampling)",
@@ -546,16 +486,4 @@ func main() {
 		})
 }
 
-func head(s string, n int) string {
-	if len(s) > n {
-		return s[:n]
-	}
-	return s
-}
 
-func tail(s string, n int) string {
-	if len(s) > n {
-		return s[:n]
-	}
-	return s
-}
